@@ -177,6 +177,17 @@ def traverse_facts(ctx, cq):
             arg = norm(call.args[0]) if len(call.args) == 1 and not call.keywords else "?"
             stored = isinstance(st, ast.Assign) and len(st.targets) == 1 and isinstance(st.targets[0], ast.Subscript) and const_str(st.targets[0].slice) == "file tree" \
                 and (st.value is call or (isinstance(st.value, ast.Dict) and len(st.value.values) == 1 and st.value.values[0] is call))
+            if not stored and isinstance(st, ast.Assign) and len(st.targets) == 1 and isinstance(st.targets[0], ast.Name) and st.value is call:
+                # tree = self._traverse(root) ... info['file tree'] = tree / {name: tree}
+                v = st.targets[0].id
+                uses = [n for n in own_nodes(f.node) if isinstance(n, ast.Name) and n.id == v and isinstance(n.ctx, ast.Load)]
+                good = 0
+                for u in uses:
+                    us = ctx.prog.enclosing_stmt(u)
+                    if isinstance(us, ast.Assign) and len(us.targets) == 1 and isinstance(us.targets[0], ast.Subscript) and const_str(us.targets[0].slice) == "file tree" \
+                            and (us.value is u or (isinstance(us.value, ast.Dict) and len(us.value.values) == 1 and us.value.values[0] is u)):
+                        good += 1
+                stored = bool(uses) and good == len(uses)
             if arg != "%s.path" % f.self_name:
                 loop = _enclosing_for(ctx, f, call)
                 if loop is not None and isinstance(loop.target, ast.Name) and arg == loop.target.id and _is_flat_sorted_listing(ctx, f, loop.iter):
@@ -356,6 +367,9 @@ def hybrid_entry_facts(ctx, cq, fn, fb, sv, hv):
                     src = ctx.res.bindings(fn).get(payload[0].id, [])
                     if any(w == "iter" and norm(it) == hv for w, it in src):
                         ok = True
+                # `for layer_hash, piece in hasher:` - the same, unpacked in the loop target
+                if what == "iterunpack" and payload[1] == 1 and norm(payload[0]) == hv:
+                    ok = True
         F["v1.pieces"] = Fact("extended with the hasher's v1 piece hashes" if ok else "extend(%s)" % v, pe[0], fn)
     else:
         F["v1.pieces"] = und("expected one extension of self.pieces, found %d" % len(pe), fb, fn)
